@@ -4,6 +4,7 @@ LEAF = [
     'odml/base.py::SmartList.index',
     'odml/base.py::SmartList.__getitem__',
     'odml/base.py::Sectionable._check_no_cycle',
+    'odml/base.py::Sectionable.document.getter',
 ]
 EDITS = [
     'odml/base.py::SmartList.remove',
